@@ -20,7 +20,8 @@ RULE = (
     "classified by the recursive and by the iterative traversal through e.degree, compute_degree, is_linear, "
     "is_quadratic, Expression.is_linear, Problem._is_linear_problem and Problem._auto_select_method, and once more "
     "after every sub-expression object has been classified bottom-up on shared objects (non-initial degree caches) "
-    "(transitions = those API calls + builder ops).  Oracle: exact polynomial over Fractions (mc/alg.py PolyAlg); "
+    "(transitions = those API calls + builder ops); recipes holding a Parameter are also classified at p in {2, 1, 0}, "
+    "the parameter is then set to another value and the same objects classified again.  Oracle: exact polynomial over Fractions (mc/alg.py PolyAlg); "
     "a reported degree d needs an exact polynomial of total degree <= d, and every alarm carries a witness (an "
     "exact higher-degree monomial, or a non-vanishing (d+1)-th finite difference along a grid line).  "
     "Non-trivial = recipe with >=1 variable for which optyx reports a finite degree; distinct by canonical recipe."
@@ -284,9 +285,75 @@ def check_recipe(r, tier, seed, rep=None, want=None):
     return fails
 
 
+def check_param_phase(r, tier, seed, rep=None, want=None):
+    """Recipes holding a Parameter: classified while the parameter holds p0 (2, 1, 0: values at which a power or a
+    product WOULD be a low-degree polynomial), the parameter is then set to p1 and the SAME objects are classified
+    again: what is reported then must not under-report the polynomial at the parameter's current value."""
+    from optyx import analysis
+    from optyx.core.expressions import Expression
+
+    fails = Fails(want)
+    comps = expand(r)
+    if len(comps) != 1 or comps[0] != r:
+        return fails
+    names = var_names(r)
+    pnames = param_names(r)
+    if not pnames or not names:
+        return fails
+    for p0, p1 in ((2.0, 3.0), (2.0, 0.5), (1.0, 2.0), (0.0, 1.0), (1.0, -1.0)):
+        try:
+            b = Builder(params={pn: p0 for pn in pnames})
+            e = b.build(r)
+            if not isinstance(e, Expression):
+                return fails
+            analysis._compute_degree_cached.cache_clear()
+            first = (e.degree, analysis.compute_degree(e), e.is_linear(), analysis.is_quadratic(e))
+            for pn in pnames:
+                b.parameter(pn).set(p1)
+            reported = {"degree": e.degree, "compute_degree": analysis.compute_degree(e),
+                        "is_linear": 1 if e.is_linear() else None, "is_quadratic": 2 if analysis.is_quadratic(e) else None}
+        except Exception as ex:
+            fails.add("exception:param-phase:" + type(ex).__name__, msg=str(ex)[:200], built_at=p0, now=p1)
+            continue
+        finally:
+            analysis._compute_degree_cached.cache_clear()
+        if rep:
+            rep.transitions += 8 + len(pnames)
+        params = {pn: p1 for pn in pnames}
+        try:
+            poly = ref_poly(r, names, params)
+        except Exception:
+            continue
+        true_deg = None if poly is None else poly.degree()
+        for label, d in reported.items():
+            if d is None:
+                continue
+            if rep:
+                rep.evaluations += 1
+            if true_deg is not None and true_deg <= d:
+                continue
+            if true_deg is None:
+                wit = witness_nonpoly(r, names, params, d)
+                if wit is None:
+                    continue
+            else:
+                wit = {"true_degree": true_deg}
+            fails.add("under-report-after-parameter-update:" + label, reported=d, classified_at=p0, now=p1,
+                      first_answers=first, witness=wit)
+    return fails
+
+
+def check_both(r, tier, seed, rep=None, want=None):
+    fs = check_recipe(r, tier, seed, rep, want)
+    if size(r) <= 7:
+        for k, d in check_param_phase(r, tier, seed, rep, want):
+            fs.append((k, d))
+    return fs
+
+
 def explore(item, tier, seed):
-    return std_explore(check_recipe, item, tier, seed, recipes(item, tier))
+    return std_explore(check_both, item, tier, seed, recipes(item, tier))
 
 
-culprit = std_culprit(check_recipe)
-replay = std_replay(check_recipe)
+culprit = std_culprit(check_both)
+replay = std_replay(check_both)
